@@ -124,18 +124,19 @@ Theorem C22_codec_glue_snappy : forall (lib_enc lib_dec : bytes -> lres),
 Proof. exact snappy_roundtrip. Qed.
 Print Assumptions C22_codec_glue_snappy.
 
-(* lz4 blocks, with and without the prepended size, for matching options.  The two side conditions are
-   exact: with prepend_size the input must not be 0x184D2204 bytes long (its size prefix would be the frame
-   magic and the decoder would take the frame path); without it the caller's buf_size must be a valid
-   capacity that is large enough. *)
+(* lz4 blocks, with and without the prepended size, for matching options.  The side conditions are exact:
+   buf_size must be a u32 (anything else is rejected up front, C22_lz4_bufsize_rejected); with prepend_size the
+   input must not be 0x184D2204 bytes long (its size prefix would be the frame magic and the decoder would take
+   the frame path); without it the caller's buf_size must be large enough. *)
 Theorem C22_codec_glue_lz4 :
   forall (compress : bytes -> bytes) (decompress : bytes -> N -> lres) (frame_dec : bytes -> lres),
   (forall b n, (N.of_nat (List.length b) <= n)%N -> decompress (compress b) n = LOk b) ->
   (forall b, starts_with lz4_magic (compress b) = false) ->
   forall (prepend : bool) (buf_size : Z) (v : bytes),
   (N.of_nat (List.length v) < 4294967296)%N ->
+  (0 <= buf_size < 2 ^ 32)%Z ->
   (prepend = true -> N.of_nat (List.length v) <> magic_len) ->
-  (prepend = false -> (0 <= buf_size < 2 ^ 32 /\ Z.of_nat (List.length v) <= buf_size)%Z) ->
+  (prepend = false -> (Z.of_nat (List.length v) <= buf_size)%Z) ->
   exists e, encode_lz4 compress prepend v = ROk e
             /\ decode_lz4 decompress frame_dec buf_size prepend e = ROk v.
 Proof. exact lz4_roundtrip. Qed.
@@ -159,31 +160,39 @@ Theorem C22_lz4_default_options_refuted :
 Proof. exact lz4_default_options_refuted. Qed.
 Print Assumptions C22_lz4_default_options_refuted.
 
-(* buf_size outside 0..2^32-1 is not rejected but panics *)
-Theorem C22_lz4_bufsize_refuted :
-  forall (decompress : bytes -> N -> lres) (frame_dec : bytes -> lres) (buf_size : Z) (v : bytes),
+(* buf_size outside 0..2^32-1 is an ordinary error, for every input and either value of prepended_size
+   (repaired by c2888f1; it used to panic with a capacity overflow) *)
+Theorem C22_lz4_bufsize_rejected :
+  forall (decompress : bytes -> N -> lres) (frame_dec : bytes -> lres) (buf_size : Z) (prepended : bool) (v : bytes),
   (buf_size < 0 \/ 2 ^ 32 <= buf_size)%Z ->
-  (starts_with lz4_magic v = false -> decode_lz4 decompress frame_dec buf_size false v = RPanic) /\
-  (starts_with lz4_magic v = true -> forall p, decode_lz4 decompress frame_dec buf_size p v = RPanic).
-Proof. exact lz4_bufsize_panics. Qed.
-Print Assumptions C22_lz4_bufsize_refuted.
+  decode_lz4 decompress frame_dec buf_size prepended v = RErr.
+Proof. exact lz4_bufsize_rejected. Qed.
+Print Assumptions C22_lz4_bufsize_rejected.
 
 Theorem C22_codec_glue_charset :
   forall (E : Type) (for_label : bytes -> option E) (cs_encode cs_decode : E -> bytes -> bytes)
          (representable : E -> bytes -> Prop),
   (forall e t, representable e t -> cs_decode e (cs_encode e t) = t) ->
-  forall (label : bytes) (t : bytes), valid_utf8 t = true ->
-  (forall e, for_label label = Some e -> representable e t ->
+  forall (label : bytes) (t : bytes),
+  (forall e, for_label label = Some e -> valid_utf8 t = true -> representable e t ->
      exists b, encode_charset for_label cs_encode label t = ROk b
                /\ decode_charset for_label cs_decode label b = ROk t)
   /\ (for_label label = None ->
       encode_charset for_label cs_encode label t = RErr /\ decode_charset for_label cs_decode label t = RErr).
 Proof.
-  intros E for_label cs_encode cs_decode representable H label t Hv. split.
-  - intros e Hl Hr. exact (charset_roundtrip E for_label cs_encode cs_decode representable H label e t Hl Hv Hr).
-  - intros Hl. exact (charset_unknown_label E for_label cs_encode cs_decode label t Hl Hv).
+  intros E for_label cs_encode cs_decode representable H label t. split.
+  - intros e Hl Hv Hr. exact (charset_roundtrip E for_label cs_encode cs_decode representable H label e t Hl Hv Hr).
+  - intros Hl. exact (charset_unknown_label E for_label cs_encode cs_decode label t Hl).
 Qed.
 Print Assumptions C22_codec_glue_charset.
+
+(* bytes that are not UTF-8 are converted lossily before encoding (repaired by a0ffe6c; it used to panic) *)
+Theorem C22_charset_invalid_utf8_lossy :
+  forall (E : Type) (for_label : bytes -> option E) (cs_encode : E -> bytes -> bytes) (label : bytes) (e : E) (v : bytes),
+  for_label label = Some e ->
+  encode_charset for_label cs_encode label v = ROk (cs_encode e (utf8_lossy v)).
+Proof. exact charset_invalid_utf8_lossy. Qed.
+Print Assumptions C22_charset_invalid_utf8_lossy.
 
 Theorem C22_codec_glue_punycode_validate :
   forall (to_ascii : bytes -> option bytes) (to_unicode : bytes -> bytes * bool) (valid_domain : bytes -> Prop),
